@@ -24,9 +24,9 @@ PY = sys.executable
 
 TIERS = {
     'C16': {'quick': {'runs': 2400, 'det': 48, 'sweeps': 8},
-            'thorough': {'runs': 60000, 'det': 512, 'sweeps': 400}},
+            'thorough': {'runs': 60000, 'det': 512, 'sweeps': 400, 'max_seconds': 5000}},
     'C17': {'quick': {'runs': 6000, 'det': 48, 'fresh': 16},
-            'thorough': {'runs': 400000, 'det': 512, 'fresh': 300}},
+            'thorough': {'runs': 400000, 'det': 512, 'fresh': 300, 'max_seconds': 5000}},
 }
 
 CTX = None          # set in the template before the pool forks
@@ -112,7 +112,7 @@ def _sweep(prop, tier, master, j, part):
     ctx = CTX
     rng = random.Random(run_seed(master, prop, tier + '-sweep', j))
     kind = c16.SWEEP_KINDS[j % len(c16.SWEEP_KINDS)]
-    spec = c16.gen_spec(ctx, rng, 'quick', force={'T': 2, 'counts': [1, 1], 'plan': 'one', 'gran': 'line',
+    spec = c16.gen_spec(ctx, rng, 'quick', force={'T': 2, 'counts': [1, 1], 'plan': 'one', 'gran': 'line', 'no_kill': True,
                                                    'mix': rng.choice(['geo', 'geo', 'forward', 'inverse', 'boundary'])}) \
         if kind == 'far-cold' and rng.random() < 0.5 else c16.gen_sweep(ctx, rng, kind)
     spec['seed'] = run_seed(master, prop, tier + '-sweep', j) >> 16
@@ -345,7 +345,8 @@ def main(argv=None):
     chunk = 10 if tier == 'quick' else 40
     idxs = list(range(cfg['runs']))
     chunks = [idxs[i:i + chunk] for i in range(0, len(idxs), chunk)]
-    deadline = (t0 + args.max_seconds) if args.max_seconds else None
+    max_s = args.max_seconds or cfg.get('max_seconds') or 0
+    deadline = (t0 + max_s) if max_s else None
     skipped = 0
     ex = ProcessPoolExecutor(args.workers, mp_context=mpctx)
     try:
